@@ -2,7 +2,7 @@
 
    The fragment: scalar assignment, PRINT (expressions, `;`, `,`), GOTO,
    GOSUB, RETURN, FOR/TO/STEP, NEXT, IF c THEN <line>, IF c THEN <statement>,
-   END — expressions from the fragment of C02 (literals,
+   IF c THEN a ELSE b, REM, END — expressions from the fragment of C02 (literals,
    variables, unary and binary operators, ABS, INT, parentheses).  It is a
    language of counter machines: programs in it loop, branch and need not
    terminate.
@@ -33,6 +33,23 @@ Local Open Scope nat_scope.
 
 Definition line_target (x : f64) : N := Z.to_N (f64_to_u64_sat x).
 
+(* tokens the skipping loop of a false IF passes over *)
+Definition plain_tok (t : token) : bool := negb (token_eqb t TColon || token_eqb t TElse).
+
+(* the THEN arm of an IF that has an ELSE: a line number, or a statement that
+   needs no return point of its own (GOSUB and FOR in that position would
+   return to the ELSE token; a nested IF would claim the ELSE) *)
+Inductive TRen (F d : nat) (rest : list token) : arm -> list token -> Prop :=
+| TR_line n x : line_target x = n -> TRen F d rest (ALine n) [TNumber x]
+| TR_let v e e' te : tr e = Some e' -> Renders 0 e' te -> S d + pdepth e' < max_nesting -> stops 0 rest = true ->
+    xsize e <= F -> TRen F d rest (AStmt (SLet v [] e)) (TSymbol v :: TEquals :: te)
+| TR_print items mitems ti : tr_items items = Some mitems -> IRenders rest mitems ti ->
+    S d + idepth mitems < max_nesting -> isize items <= F -> TRen F d rest (AStmt (SPrint items)) (TPrint :: ti)
+| TR_goto n x : line_target x = n -> TRen F d rest (AStmt (SGoto n)) [TGoto; TNumber x]
+| TR_return : TRen F d rest (AStmt SReturn) [TReturn]
+| TR_end : TRen F d rest (AStmt SEnd) [TEnd]
+| TR_next v : TRen F d rest (AStmt (SNext v)) [TNext; TSymbol v].
+
 (* [SRen d rest stmt ts]: [ts] spells [stmt] when followed by [rest], at nesting depth [d]
    (0 for a statement of the line, one more inside each IF..THEN clause) *)
 (* [F]: the expression fuel the reference interpreter is run with; every
@@ -62,7 +79,16 @@ Inductive SRen (F : nat) (d : nat) (rest : list token) : rstmt -> list token -> 
 | SR_rem b : SRen F d rest SRem [TRemark b]
 | SR_if_stmt c c' tc stmt tn : tr c = Some c' -> Renders 0 c' tc -> S d + pdepth c' < max_nesting -> xsize c <= F ->
     Nat.eqb (S d) max_nesting = false -> SRen F (S d) rest stmt tn ->
-    SRen F d rest (SIf c (AStmt stmt) None) (TIf :: tc ++ TThen :: tn).
+    forallb plain_tok tn = true ->      (* no ELSE inside: it would be taken for this IF's *)
+    SRen F d rest (SIf c (AStmt stmt) None) (TIf :: tc ++ TThen :: tn)
+| SR_if_else_line c c' tc A ta n x : tr c = Some c' -> Renders 0 c' tc -> S d + pdepth c' < max_nesting -> xsize c <= F ->
+    Nat.eqb (S d) max_nesting = false ->
+    TRen F (S d) (TElse :: TNumber x :: rest) A ta -> line_target x = n ->
+    SRen F d rest (SIf c A (Some (ALine n))) (TIf :: tc ++ TThen :: ta ++ TElse :: [TNumber x])
+| SR_if_else_stmt c c' tc A ta B tb : tr c = Some c' -> Renders 0 c' tc -> S d + pdepth c' < max_nesting -> xsize c <= F ->
+    Nat.eqb (S d) max_nesting = false ->
+    TRen F (S d) (TElse :: tb ++ rest) A ta -> SRen F (S d) rest B tb ->
+    SRen F d rest (SIf c A (Some (AStmt B))) (TIf :: tc ++ TThen :: ta ++ TElse :: tb).
 
 (* a line: statements joined by colons *)
 Inductive LRen (F : nat) : list rstmt -> list token -> Prop :=
@@ -260,7 +286,7 @@ Section Step.
           /\ ((r_calls st' = r_calls st /\ stack s' = stack s)
               \/ (exists pc0 l0, r_calls st' = pc0 :: r_calls st /\ stack s' = stack s ++ [mkframe l0 []] /\ L pc0 l0)
               \/ (exists fr rest cr, stack s = rest ++ [fr] /\ stack s' = rest
-                                     /\ r_calls st = pc :: cr /\ r_calls st' = cr /\ loc s' = fr_ret fr))
+                                     /\ r_calls st = pc :: cr /\ r_calls st' = cr))
           /\ ((r_loops st' = r_loops st /\ loops s' = loops s)
               \/ (exists v to step pc0 l0,
                     r_loops st' = rkeep v (r_loops st) ++ [mkrl v to step pc0]
@@ -291,7 +317,6 @@ Section Step.
     step_outcome (exec F p stmt after li st) i ts run o.
 
   Definition steps_as (stmt : rstmt) (i : nat) (ts : list token) : Prop :=
-    L after (mkloc (loc_line (loc s)) (i + length ts)) ->
     exists f0, forall fuel, f0 <= fuel -> forall r o,
       step_result stmt i ts (evaluate_statement fuel d (at_idx s i r o)) o.
 
@@ -312,7 +337,7 @@ Section Step.
   Proof.
     intros Hsk Hst Htr Hren Hdp HF.
     destruct (model_let s toks Htoks Htrace v e' te rest i Hsk Hst Hren d Hd Hdp) as (f0 & Hm).
-    intros HLa. exists f0. intros fuel Hf r o. destruct (Hm fuel Hf r o) as (i' & r' & o' & HW & Hrun). clear Hm.
+    exists f0. intros fuel Hf r o. destruct (Hm fuel Hf r o) as (i' & r' & o' & HW & Hrun). clear Hm.
     apply W_off in HW. subst o'. unfold step_result, step_outcome.
     rewrite (ref_let s v e e' Htr p after li st Hrel F HF), Hrun.
     pose proof (den_plain s e e' Htr) as Hp.
@@ -337,7 +362,7 @@ Section Step.
   Proof.
     intros Hsk Htr Hren Hdp HF.
     destruct (model_print s toks Htoks mitems ti rest i Htrace Hsk Hren d Hd Hdp) as (f0 & Hm).
-    intros HLa. exists f0. intros fuel Hf r o. destruct (Hm fuel Hf r o) as (i' & r' & o' & HW & Hrun). clear Hm.
+    exists f0. intros fuel Hf r o. destruct (Hm fuel Hf r o) as (i' & r' & o' & HW & Hrun). clear Hm.
     apply W_off in HW. subst o'. unfold step_result, step_outcome. cbn [exec].
     rewrite (ref_print_items F st s Hrel items mitems Htr HF false []), Hrun.
     pose proof (pden_plain s items mitems Htr false []) as Hp.
@@ -364,13 +389,29 @@ Section Step.
     destruct (find_line p n 0); reflexivity.
   Qed.
 
+  (* the transfer, as an outcome: GOTO n, THEN n, ELSE n *)
+  Lemma jump_outcome n j r o i ts :
+    step_outcome (jump p n (line_no p li) st) i ts (goto_line_number n (at_idx s j r o)) o.
+  Proof.
+    unfold step_outcome. rewrite goto_runs. unfold jump.
+    destruct (find_line p n 0) as [li'|] eqn:Ef.
+    - destruct (find_line_nth _ _ _ _ Ef) as (stmts & Hnth). rewrite Nat.sub_0_r in Hnth.
+      eexists. split; [reflexivity|]. split; [unfold keeps; repeat split; assumption|].
+      split; [destruct Hrel as [A B]; split; [exact A | exact B]|]. split; [reflexivity|]. split; [intros HT; exact HT|].
+      split; [left; split; reflexivity|]. split; [left; split; reflexivity|].
+      split; [exists []; split; [rewrite app_nil_r; reflexivity | cbn; rewrite app_nil_r; reflexivity]|].
+      right. left. exists n, li', stmts. repeat split; assumption.
+    - split; [reflexivity|]. split; [reflexivity|]. eexists _, _. split; [reflexivity|].
+      split; [reflexivity|]. split; [unfold keeps; repeat split; assumption|]. split; [reflexivity | split; [reflexivity | discriminate]].
+  Qed.
+
   Lemma step_goto n x rest i :
     skipn i toks = [TGoto; TNumber x] ++ rest -> line_target x = n ->
     steps_as (SGoto n) i [TGoto; TNumber x].
   Proof.
     intros Hsk Hn. cbn [app] in Hsk.
     destruct (skipn_cons_nth _ _ _ _ Hsk) as [H0 Hs1]. destruct (skipn_cons_nth _ _ _ _ Hs1) as [H1 _].
-    intros HLa. exists 1. intros fuel Hf r o. destruct fuel as [|f]; [lia|].
+    exists 1. intros fuel Hf r o. destruct fuel as [|f]; [lia|].
     assert (Hrun : evaluate_statement (S f) d (at_idx s i r o) = goto_line_number n (at_idx s (S (S i)) (S (S r)) o)).
     { cbn [evaluate_statement]. rewrite Hd.
       unfold evaluate_statement_body.
@@ -395,11 +436,12 @@ Section Step.
   Lemma step_gosub n x rest i :
     skipn i toks = [TGosub; TNumber x] ++ rest -> line_target x = n ->
     length (r_calls st) + length (r_frames st) = length (stack s) ->
+    L after (mkloc (loc_line (loc s)) (i + length [TGosub; TNumber x])) ->
     steps_as (SGosub n) i [TGosub; TNumber x].
   Proof.
-    intros Hsk Hn Hdepth. cbn [app] in Hsk.
+    intros Hsk Hn Hdepth HLa. cbn [app] in Hsk.
     destruct (skipn_cons_nth _ _ _ _ Hsk) as [H0 Hs1]. destruct (skipn_cons_nth _ _ _ _ Hs1) as [H1 _].
-    intros HLa. exists 1. intros fuel Hf r o. destruct fuel as [|f]; [lia|].
+    exists 1. intros fuel Hf r o. destruct fuel as [|f]; [lia|].
     assert (Hrun : evaluate_statement (S f) d (at_idx s i r o) = gosub_line_number n (at_idx s (S (S i)) (S (S r)) o)).
     { cbn [evaluate_statement]. rewrite Hd.
       unfold evaluate_statement_body.
@@ -453,7 +495,7 @@ Section Step.
     steps_as SReturn i [TReturn].
   Proof.
     intros Hsk Hnil Hcons. cbn [app] in Hsk. destruct (skipn_cons_nth _ _ _ _ Hsk) as [H0 _].
-    intros HLa. exists 1. intros fuel Hf r o. destruct fuel as [|f]; [lia|].
+    exists 1. intros fuel Hf r o. destruct fuel as [|f]; [lia|].
     assert (Hrun : evaluate_statement (S f) d (at_idx s i r o) = return_to_last_gosub (at_idx s (S i) (S r) o)).
     { cbn [evaluate_statement]. rewrite Hd.
       unfold evaluate_statement_body.
@@ -553,9 +595,10 @@ Section Step.
      (exists c c' tc, stp = Some c /\ tstep = TStep :: tc /\ tr c = Some c' /\ Renders 0 c' tc
                       /\ S d + pdepth c' < max_nesting /\ xsize c <= F)) ->
     Forall2 lsame (r_loops st) (loops s) ->
+    L after (mkloc (loc_line (loc s)) (i + length (TFor :: TSymbol v :: TEquals :: ta ++ TTo :: tb ++ tstep))) ->
     steps_as (SFor v a b stp) i (TFor :: TSymbol v :: TEquals :: ta ++ TTo :: tb ++ tstep).
   Proof.
-    intros Hsk Hrest Ha Hra Hda HFa Hb Hrb Hdb HFb Hstep HL.
+    intros Hsk Hrest Ha Hra Hda HFa Hb Hrb Hdb HFb Hstep HL HLa.
     cbn [app] in Hsk. rewrite <- app_assoc in Hsk. cbn [app] in Hsk. rewrite <- app_assoc in Hsk.
     destruct (skipn_cons_nth _ _ _ _ Hsk) as [H0 Hs1]. destruct (skipn_cons_nth _ _ _ _ Hs1) as [H1 Hs2].
     destruct (skipn_cons_nth _ _ _ _ Hs2) as [H2 Hs3].
@@ -577,7 +620,7 @@ Section Step.
       { intros t Ht. destruct Hrest as [->|(tr0 & ->)].
         - rewrite (skipn_nil_nth _ _ Hs6) in Ht. discriminate.
         - destruct (skipn_cons_nth _ _ _ _ Hs6) as [Hc _]. rewrite Hc in Ht. inversion Ht. reflexivity. }
-      intros HLa. exists (S (S (fa + fb))). intros fuel Hf r o. destruct fuel as [|f]; [lia|].
+      exists (S (S (fa + fb))). intros fuel Hf r o. destruct fuel as [|f]; [lia|].
       destruct (Hfa f ltac:(lia) (S (S (S r))) o) as (i1 & r1 & o1 & Hev1 & Hi1 & HW1). apply W_off in HW1. subst o1.
       destruct (Hfb f ltac:(lia) (S r1) o) as (i2 & r2 & o2 & Hev2 & Hi2 & HW2). apply W_off in HW2. subst o2.
       assert (Hrun : evaluate_statement (S f) d (at_idx s i r o) =
@@ -630,7 +673,7 @@ Section Step.
       destruct (expr_sem_at s toks Htoks c' tc Hrc (S d) (S jb) rest Hs7 Hstop2 Hdc) as (fc & Hfc).
       set (jc := S jb + length tc) in *.
       pose proof (den_plain s c c' Hc) as Hpc.
-      intros HLa. exists (S (S (fa + fb + fc))). intros fuel Hf r o. destruct fuel as [|f]; [lia|].
+      exists (S (S (fa + fb + fc))). intros fuel Hf r o. destruct fuel as [|f]; [lia|].
       destruct (Hfa f ltac:(lia) (S (S (S r))) o) as (i1 & r1 & o1 & Hev1 & Hi1 & HW1). apply W_off in HW1. subst o1.
       destruct (Hfb f ltac:(lia) (S r1) o) as (i2 & r2 & o2 & Hev2 & Hi2 & HW2). apply W_off in HW2. subst o2.
       destruct (Hfc f ltac:(lia) (S r2) o) as (i3 & r3 & o3 & Hev3 & Hi3 & HW3). apply W_off in HW3. subst o3.
@@ -702,7 +745,7 @@ Section Step.
   Proof.
     intros Hsk HL HT. cbn [app] in Hsk.
     destruct (skipn_cons_nth _ _ _ _ Hsk) as [H0 Hs1]. destruct (skipn_cons_nth _ _ _ _ Hs1) as [H1 _].
-    intros HLa. exists 1. intros fuel Hf r o. destruct fuel as [|f]; [lia|].
+    exists 1. intros fuel Hf r o. destruct fuel as [|f]; [lia|].
     assert (Hrun : evaluate_statement (S f) d (at_idx s i r o) = end_loop v (at_idx s (S (S i)) (S (S r)) o)).
     { cbn [evaluate_statement]. rewrite Hd.
       unfold evaluate_statement_body.
@@ -776,7 +819,7 @@ Section Step.
     steps_as SRem i [TRemark b].
   Proof.
     intros Hsk. cbn [app] in Hsk. destruct (skipn_cons_nth _ _ _ _ Hsk) as [H0 _].
-    intros HLa. exists 1. intros fuel Hf r o. destruct fuel as [|f]; [lia|].
+    exists 1. intros fuel Hf r o. destruct fuel as [|f]; [lia|].
     unfold step_result, step_outcome. cbn [exec].
     cbn [evaluate_statement]. rewrite Hd.
     unfold evaluate_statement_body.
@@ -797,7 +840,7 @@ Section Step.
     steps_as SEnd i [TEnd].
   Proof.
     intros Hsk Himm. cbn [app] in Hsk. destruct (skipn_cons_nth _ _ _ _ Hsk) as [H0 _].
-    intros HLa. exists 1. intros fuel Hf r o. destruct fuel as [|f]; [lia|].
+    exists 1. intros fuel Hf r o. destruct fuel as [|f]; [lia|].
     unfold step_result, step_outcome. cbn [exec]. split; [reflexivity|].
     cbn [evaluate_statement]. rewrite Hd.
     unfold evaluate_statement_body.
@@ -823,7 +866,7 @@ Section Step.
     pose proof (skipn_app_len _ _ _ _ Hs1) as Hs2.
     destruct (skipn_cons_nth _ _ _ _ Hs2) as [H2 Hs3]. destruct (skipn_cons_nth _ _ _ _ Hs3) as [H3 Hs4].
     set (j := S i + length tc) in *.
-    intros HLa. exists (S (S (S (S fe)))). intros fuel Hf r o. destruct fuel as [|f]; [lia|].
+    exists (S (S (S (S fe)))). intros fuel Hf r o. destruct fuel as [|f]; [lia|].
     destruct (Hfe f ltac:(lia) (S r) o) as (i1 & r1 & o1 & Hev & Hi1 & HW1). apply W_off in HW1. subst o1.
     unfold step_result, step_outcome. cbn [exec]. unfold RefSem.ev.
     rewrite (ref_expr_is_den c c' st s F Htr (same_store_reads _ _ Hrel) HF).
@@ -935,8 +978,6 @@ End Step.
 (* ------------------------------------------------------------------ *)
 (* 3b. IF c THEN <statement>: the clause is a statement one level down *)
 
-(* tokens the skipping loop of a false IF passes over *)
-Definition plain_tok (t : token) : bool := negb (token_eqb t TColon || token_eqb t TElse).
 
 Lemma forallb_app' {A} (f : A -> bool) a b : forallb f (a ++ b) = forallb f a && forallb f b.
 Proof. induction a as [|x a IH]; cbn; [reflexivity|]. rewrite IH, andb_assoc. reflexivity. Qed.
@@ -1020,22 +1061,42 @@ Section Scan.
       erewrite bind_ok by exact Hstep. cbv iota.
       apply IH; [exact Hp2 | exact Hsk' | cbn [length] in Hlen; lia | cbn [length] in Hn; lia].
   Qed.
+
+  (* ... or stops at the ELSE of the clause and runs what follows it *)
+  Lemma scan_to_else more o :
+    forall ts j r n, forallb plain_tok ts = true -> skipn j toks = ts ++ TElse :: more -> length ts + 1 <= n ->
+      exists r', repeat_m n skip_body tt (at_idx s j r o)
+                 = (statement_or_goto_line_number rec ;;; ret tt) (at_idx s (S (j + length ts)) r' o).
+  Proof.
+    induction ts as [|t ts IH]; intros j r n Hp Hsk Hn.
+    - cbn [app] in Hsk. destruct (skipn_cons_nth _ _ _ _ Hsk) as [Hc _].
+      destruct n as [|n]; [cbn [length] in Hn; lia|]. rewrite repeat_m_S. unfold skip_body at 1.
+      rewrite bind_assoc. erewrite bind_ok by (apply (next_some s toks Htoks); exact Hc). cbv iota beta.
+      rewrite bind_assoc. cbn [length]. rewrite Nat.add_0_r. exists (S r).
+      unfold bind. destruct (statement_or_goto_line_number rec (at_idx s (S j) (S r) o)) as [[[]|e l|pp| |] s1]; reflexivity.
+    - cbn [app] in Hsk. cbn [forallb] in Hp. apply andb_true_iff in Hp. destruct Hp as [Hp1 Hp2].
+      destruct (skipn_cons_nth _ _ _ _ Hsk) as [Hc Hsk'].
+      destruct n as [|n]; [cbn [length] in Hn; lia|]. rewrite repeat_m_S. unfold skip_body at 1.
+      assert (Hstep : (t0 <- next_token ;;
+                       match t0 with
+                       | None => ret (inr tt)
+                       | Some TColon => discard_remaining_tokens ;;; ret (inl tt)
+                       | Some TElse => statement_or_goto_line_number rec ;;; ret (inr tt)
+                       | Some _ => ret (inl tt)
+                       end) (at_idx s j r o) = (Ok (inl tt), at_idx s (S j) (S r) o)).
+      { erewrite bind_ok by (apply (next_some s toks Htoks); exact Hc).
+        unfold plain_tok in Hp1. destruct t; try reflexivity; discriminate. }
+      erewrite bind_ok by exact Hstep. cbv iota.
+      destruct (IH (S j) (S r) n Hp2 Hsk' ltac:(cbn [length] in Hn; lia)) as (r' & E).
+      exists r'. rewrite E. cbn [length]. replace (S (j + S (length ts))) with (S (S j + length ts)) by lia. reflexivity.
+  Qed.
 End Scan.
 
-Lemma SRen_plain F d rest stmt ts : SRen F d rest stmt ts -> forallb plain_tok ts = true.
+Lemma TRen_plain F d rest a ts : TRen F d rest a ts -> forallb plain_tok ts = true.
 Proof.
-  induction 1 as [d rest v e e' te H1 H2 H3 H4 H5|d rest items mitems ti H1 H2 H3 H4|d rest n x H1|d rest n x H1|d rest|d rest
-                 |d rest c c' tc n x H1 H2 H3 H4 H5
-                 |d rest v a a' ta b b' tb stp tstep A1 A2 A3 A4 B1 B2 B3 B4 HC|d rest v|d rest b0
-                 |d rest c c' tc stmt tn H1 H2 H3 H4 H5 H6 IH]; try reflexivity.
+  destruct 1 as [n x H1|v e e' te H1 H2 H3 H4 H5|items mitems ti H1 H2 H3 H4|n x H1| | |v]; try reflexivity.
   - cbn [forallb]. rewrite (Renders_plain _ _ _ H2). reflexivity.
   - cbn [forallb]. rewrite (IRenders_plain _ _ _ H2). reflexivity.
-  - cbn [forallb]. rewrite forallb_app', (Renders_plain _ _ _ H2). reflexivity.
-  - cbn [forallb]. rewrite forallb_app', (Renders_plain _ _ _ A2). cbn [forallb].
-    rewrite forallb_app', (Renders_plain _ _ _ B2).
-    destruct HC as [[_ ->]|(c & c' & tc & _ & -> & _ & Hr & _)]; [reflexivity|].
-    cbn [forallb]. rewrite (Renders_plain _ _ _ Hr). reflexivity.
-  - cbn [forallb]. rewrite forallb_app', (Renders_plain _ _ _ H2). cbn [forallb]. rewrite IH. reflexivity.
 Qed.
 
 Lemma SRen_head F d rest stmt ts : SRen F d rest stmt ts -> exists t ts', ts = t :: ts' /\ forall x, t <> TNumber x.
@@ -1257,7 +1318,7 @@ Section StepIf.
     steps_as F p s toks L (S d) li after st stmt (S (S i + length tc)) tn ->
     steps_as F p s toks L d li after st (SIf c (AStmt stmt) None) i (TIf :: tc ++ TThen :: tn).
   Proof.
-    intros Hsk Hrest Htr Hren Hdp HF Etn Hnum Hplain Hn HLa.
+    intros Hsk Hrest Htr Hren Hdp HF Etn Hnum Hplain (fn & Hn).
     cbn [app] in Hsk. rewrite <- app_assoc in Hsk. cbn [app] in Hsk.
     destruct (skipn_cons_nth _ _ _ _ Hsk) as [H0 Hs1].
     destruct (expr_sem_at s toks Htoks c' tc Hren (S d) (S i) (TThen :: tn ++ rest) Hs1 eq_refl Hdp) as (fe & Hfe).
@@ -1272,7 +1333,6 @@ Section StepIf.
       pose proof (skipn_all_length toks (S j) _ Hs3 Hne) as Hl. rewrite app_length in Hl. lia. }
     assert (Hsum : S j + length tn = i + length (TIf :: tc ++ TThen :: tn)).
     { cbn [length]. rewrite app_length. cbn [length]. unfold j. lia. }
-    destruct Hn as (fn & Hn); [rewrite Hsum; exact HLa|].
     exists (S (S (fe + fn + length tn + 3))). intros fuel Hf r o. destruct fuel as [|f]; [lia|].
     destruct (Hfe f ltac:(lia) (S r) o) as (i1 & r1 & o1 & Hev & Hi1 & HW1). apply (W_off s Hwarn) in HW1. subst o1.
     unfold step_result. cbn [exec]. unfold RefSem.ev.
@@ -1323,6 +1383,175 @@ Section StepIf.
       split; [left; split; reflexivity|]. split; [left; split; reflexivity|].
       split; [exists []; split; [rewrite app_nil_r; reflexivity | cbn; rewrite app_nil_r; reflexivity]|].
       right. right. left. split; reflexivity.
+  Qed.
+
+  (* ---- IF c THEN a ELSE b ---- *)
+
+  Lemma bind_ret_tt (m : M unit) x : (m ;;; ret tt) x = m x.
+  Proof. unfold bind. destruct (m x) as [[[]|e l|pp| |] s1]; reflexivity. Qed.
+
+  (* an arm of the IF: a line number or a statement one level down *)
+  Definition arm_out (a : arm) (aft : rpc) : outcome :=
+    match a with ALine n => jump p n (line_no p li) st | AStmt s1 => exec F p s1 aft li st end.
+
+  Definition arm_steps (aft : rpc) (a : arm) (j : nat) (ta : list token) : Prop :=
+    exists f0, forall f, f0 <= f -> forall r o,
+      step_outcome p s toks L li aft st (arm_out a aft) j ta
+        (statement_or_goto_line_number (evaluate_statement f (S d)) (at_idx s j r o)) o.
+
+  Hypothesis Hjump : forall n, store_has n s = match find_line p n 0 with Some _ => true | None => false end.
+
+  Lemma arm_line aft n x j more :
+    skipn j toks = TNumber x :: more -> line_target x = n -> arm_steps aft (ALine n) j [TNumber x].
+  Proof.
+    intros Hsk Hn. destruct (skipn_cons_nth _ _ _ _ Hsk) as [H0 _].
+    exists 0. intros f _ r o. unfold statement_or_goto_line_number.
+    erewrite bind_ok by apply (peek_at s toks Htoks). rewrite H0. cbv iota.
+    unfold evaluate_goto_statement.
+    erewrite bind_ok by (apply (next_some s toks Htoks); exact H0). cbv iota beta.
+    unfold line_target in Hn. rewrite Hn. cbn [arm_out].
+    apply (jump_outcome p s toks Htrace Hwarn Hjump L li aft st Hrel).
+  Qed.
+
+  Lemma arm_stmt aft s1 j ta t0 ta' :
+    steps_as F p s toks L (S d) li aft st s1 j ta -> skipn j toks = t0 :: ta' -> (forall x, t0 <> TNumber x) ->
+    arm_steps aft (AStmt s1) j ta.
+  Proof.
+    intros (f0 & H) Hsk Hnum. destruct (skipn_cons_nth _ _ _ _ Hsk) as [H0 _].
+    exists f0. intros f Hf r o. unfold statement_or_goto_line_number.
+    erewrite bind_ok by apply (peek_at s toks Htoks). rewrite H0.
+    cbn [arm_out]. specialize (H f Hf (S r) o). unfold step_result in H.
+    destruct t0; try exact H. exfalso. eapply Hnum. reflexivity.
+  Qed.
+
+  (* the probe finds the ELSE: the rest of the line belongs to the other arm *)
+  Lemma probe_else s' : keeps s s' -> loc_line (loc s') = loc_line (loc s) ->
+    nth_error toks (loc_idx (loc s')) = Some TElse ->
+    else_probe s' = (Ok tt, set_loc (mkloc (loc_line (loc s)) (length toks)) (bump s')).
+  Proof.
+    intros (K1 & K2 & K3 & K4 & K5 & K6) Hl Hne.
+    destruct (cur_tokens_ok_inv s toks Htoks) as [Hle Hct].
+    assert (Hct' : cur_toks s' = toks) by (unfold cur_toks in *; rewrite Hl, K1, K6; exact Hct).
+    assert (Hle' : line_exists s' (loc s')) by (unfold line_exists in *; rewrite Hl, K1; exact Hle).
+    unfold else_probe, peek_is. rewrite bind_assoc.
+    erewrite bind_ok by (apply peek_eq; exact Hle'). rewrite bind_ret', Hct', Hne.
+    change (token_eqb TElse TElse) with true. cbv iota.
+    unfold discard_remaining_tokens.
+    erewrite bind_ok by (apply (cur_tokens_eq (bump s')); exact Hle').
+    change (cur_toks (bump s')) with (cur_toks s'). rewrite Hct'.
+    unfold modify. change (loc (bump s')) with (loc s'). rewrite Hl. reflexivity.
+  Qed.
+
+  Lemma after_nested_else out i ts iA ta (m : M unit) x o more :
+    skipn (iA + length ta) toks = TElse :: more ->
+    step_outcome p s toks L li (S li, 0) st out iA ta (m x) o ->
+    step_outcome p s toks L li after st out i ts ((m ;;; else_probe) x) o.
+  Proof.
+    intros Hsk H. destruct (skipn_cons_nth _ _ _ _ Hsk) as [Hc _].
+    unfold bind. destruct (m x) as [[[]|e l|pp| |] s'] eqn:Em.
+    2,3,4,5: (unfold step_outcome in *; destruct out as [pc st'|st'|er line st'|];
+              [destruct H as (s2 & E & _); discriminate | destruct H as (_ & s2 & E & _); discriminate
+              | exact H | exact H]).
+    unfold step_outcome in H. destruct out as [pc st'|st'|er line st'|].
+    - destruct H as (s2 & E & K & SS & FR & TY & CS & LS & OUT & LOC). inversion E; subst s2.
+      destruct LOC as [[Hpc Hloc]|LOC'].
+      + (* the arm ran to its end: the cursor is on the ELSE *)
+        rewrite (probe_else s' K); [|rewrite Hloc; reflexivity | rewrite Hloc; exact Hc].
+        unfold step_outcome. eexists. split; [reflexivity|].
+        split; [exact K|]. split; [exact SS|]. split; [exact FR|]. split; [exact TY|].
+        split; [exact CS|]. split; [exact LS|]. split; [exact OUT|].
+        right. right. left. split; [exact Hpc | reflexivity].
+      + (* it left the line, or skipped its rest: no ELSE where it is now *)
+        assert (Hprobe : else_probe s' = (Ok tt, bump s')).
+        { destruct LOC' as [(n & li' & stmts & _ & Hp & Hloc)|[[_ Hloc]|[(fr & rs & cr & Hst & _ & Hloc)
+                          |(v & lp & kept & k & lm & _ & _ & Hn & _ & Hloc)]]].
+          - destruct (Hlines li' n stmts Hp) as (t & l' & Ht & Hne).
+            apply (probe_at s' n (t :: l') K); [rewrite Hloc; reflexivity | exact Ht|].
+            rewrite Hloc. cbn. congruence.
+          - apply (probe_same_line s' K); [rewrite Hloc; reflexivity|]. rewrite Hloc. cbn [loc_idx].
+            assert (Hnone : nth_error toks (length toks) = None) by (apply nth_error_None; apply le_n).
+            rewrite Hnone. discriminate.
+          - destruct (Hland_calls fr) as (n & tsn & A & B & C); [rewrite Hst; apply in_or_app; right; left; reflexivity|].
+            apply (probe_at s' n tsn K); try rewrite Hloc; assumption.
+          - destruct (Hland_loops lm) as (n & tsn & A & B & C); [eapply nth_error_In; exact Hn|].
+            apply (probe_at s' n tsn K); try rewrite Hloc; assumption. }
+        rewrite Hprobe. unfold step_outcome. exists (bump s'). split; [reflexivity|].
+        split; [exact K|]. split; [exact SS|]. split; [exact FR|]. split; [exact TY|].
+        split; [exact CS|]. split; [exact LS|]. split; [exact OUT|]. right. exact LOC'.
+    - destruct H as (E0 & s2 & E & K & Hloc & Himm & O). inversion E; subst s2.
+      assert (Hprobe : else_probe s' = (Ok tt, bump s')).
+      { destruct K as (K1 & K2 & K3 & K4 & K5 & K6). apply probe_no_else.
+        - unfold line_exists, line_ok. rewrite Hloc. exact I.
+        - unfold cur_toks. rewrite Hloc. cbn [loc_line imm0 loc_idx]. rewrite K6, Himm. discriminate. }
+      rewrite Hprobe. unfold step_outcome. split; [exact E0|]. exists (bump s'). split; [reflexivity|].
+      split; [exact K|]. split; [exact Hloc|]. split; [exact Himm | exact O].
+    - destruct H as (_ & _ & ie & s2 & E & _). discriminate.
+    - contradiction.
+  Qed.
+
+  Lemma step_if_else c c' tc A ta B tb rest i :
+    skipn i toks = (TIf :: tc ++ TThen :: ta ++ TElse :: tb) ++ rest ->
+    tr c = Some c' -> Renders 0 c' tc -> S d + pdepth c' < max_nesting -> xsize c <= F ->
+    forallb plain_tok ta = true ->
+    arm_steps (S li, 0) A (S (S i + length tc)) ta ->
+    arm_steps after B (S (S (S i + length tc)) + length ta) tb ->
+    steps_as F p s toks L d li after st (SIf c A (Some B)) i (TIf :: tc ++ TThen :: ta ++ TElse :: tb).
+  Proof.
+    intros Hsk Htr Hren Hdp HF Hplain (fa & HA) (fb & HB).
+    cbn [app] in Hsk. rewrite <- !app_assoc in Hsk. cbn [app] in Hsk. rewrite <- app_assoc in Hsk. cbn [app] in Hsk.
+    destruct (skipn_cons_nth _ _ _ _ Hsk) as [H0 Hs1].
+    destruct (expr_sem_at s toks Htoks c' tc Hren (S d) (S i) (TThen :: ta ++ TElse :: tb ++ rest) Hs1 eq_refl Hdp) as (fe & Hfe).
+    pose proof (skipn_app_len _ _ _ _ Hs1) as Hs2.
+    set (j := S i + length tc) in *.
+    destruct (skipn_cons_nth _ _ _ _ Hs2) as [H2 Hs3].
+    pose proof (skipn_app_len _ _ _ _ Hs3) as Hs4.
+    assert (Hsum : S (S j + length ta) + length tb = i + length (TIf :: tc ++ TThen :: ta ++ TElse :: tb)).
+    { cbn [length]. rewrite app_length. cbn [length]. rewrite app_length. cbn [length]. unfold j. lia. }
+    exists (S (S (fe + fa + fb + length ta + 3))). intros fuel Hf r o. destruct fuel as [|f]; [lia|].
+    destruct (Hfe f ltac:(lia) (S r) o) as (i1 & r1 & o1 & Hev & Hi1 & HW1). apply (W_off s Hwarn) in HW1. subst o1.
+    unfold step_result. cbn [exec]. unfold RefSem.ev.
+    rewrite (ref_expr_is_den c c' st s F Htr (same_store_reads _ _ Hrel) HF).
+    pose proof (den_plain s c c' Htr) as Hp.
+    assert (Hrun : evaluate_statement (S f) d (at_idx s i r o) =
+              match den s c' with
+              | Ok v =>
+                  (if to_bool v then
+                     statement_or_goto_line_number (evaluate_statement f (S d)) ;;; else_probe
+                   else repeat_m f (skip_body (evaluate_statement f (S d))) tt) (at_idx s (S j) (S r1) o)
+              | Err er l => (Err er l, at_idx s i1 r1 o)
+              | Panic pp => (Panic pp, at_idx s i1 r1 o)
+              | OutOfFuel => (OutOfFuel, at_idx s i1 r1 o)
+              | OracleMiss => (OracleMiss, at_idx s i1 r1 o)
+              end).
+    { cbn [evaluate_statement]. rewrite Hd.
+      unfold evaluate_statement_body.
+      rewrite bind_get_run. change (enable_tracing (at_idx s i r o)) with (enable_tracing s). rewrite Htrace. cbv iota.
+      rewrite bind_ret'.
+      erewrite bind_ok by (apply (next_some s toks Htoks); exact H0). cbv iota beta.
+      unfold evaluate_if_statement, Eval.expr. erewrite ExprSem.bind_run by exact Hev.
+      destruct (den s c') as [v|er l|pp| |]; try reflexivity.
+      rewrite (Hi1 v eq_refl). fold j.
+      erewrite bind_ok by (apply (expect_ok s toks Htoks _ _ _ TThen TThen H2); reflexivity).
+      destruct (to_bool v); reflexivity. }
+    rewrite Hrun. clear Hrun.
+    destruct (den s c') as [v|er l|pp| |]; cbn [plain conv fail_at] in *; try contradiction.
+    2:{ unfold step_outcome. destruct er; try contradiction; destruct l; try contradiction;
+          (split; [reflexivity|]; split; [reflexivity|]; eexists _, _; split; [reflexivity|];
+           split; [reflexivity|]; split; [apply keeps_at; assumption|]; split; [reflexivity | split; [reflexivity | discriminate]]). }
+    rewrite truth_to_bool. destruct (to_bool v).
+    - (* the THEN arm, then the probe finds the ELSE *)
+      replace (match A with ALine n => jump p n (line_no p li) st | AStmt s1 => exec F p s1 (S li, 0) li st end)
+        with (arm_out A (S li, 0)) by (destruct A; reflexivity).
+      apply (after_nested_else _ i _ (S j) ta _ _ o (tb ++ rest)); [exact Hs4|].
+      apply (HA f ltac:(lia)).
+    - (* the scan stops at the ELSE: the ELSE arm *)
+      destruct (scan_to_else s toks Htoks (evaluate_statement f (S d)) (tb ++ rest) o ta (S j) (S r1) f Hplain Hs3 ltac:(lia))
+        as (r' & Hscan).
+      rewrite Hscan, bind_ret_tt.
+      replace (match B with ALine n => jump p n (line_no p li) st | AStmt s2 => exec F p s2 after li st end)
+        with (arm_out B after) by (destruct B; reflexivity).
+      apply (outcome_shift _ (S (S j + length ta)) tb); [exact Hsum|].
+      apply (HB f ltac:(lia)).
   Qed.
 End StepIf.
 
@@ -1568,25 +1797,54 @@ Section Program.
     destruct (LRen_nonempty _ _ _ HL) as (t & l' & -> & Hne & _). exists t, l'. split; assumption.
   Qed.
 
+  (* the THEN arm in front of an ELSE *)
+  Lemma tren_steps s toks li aft st d A ta rest' j :
+    Inv s -> fst (cur_tokens s) = Ok toks -> same_store st s -> calls_rel st s -> loops_rel st s -> typed s ->
+    Nat.eqb (S d) max_nesting = false ->
+    skipn j toks = ta ++ rest' -> TRen F (S d) rest' A ta ->
+    arm_steps F p s toks (pcloc (st_toks s)) d li st aft A j ta.
+  Proof.
+    intros HI Htoks Hrel Hcr Hlr Hty Hd Hsk HT.
+    pose proof (i_trace s HI) as Htr. pose proof (i_warn s HI) as Hw.
+    destruct HT as [n x H1|v e e' te H1 H2 H3 H4 H5|items mitems ti H1 H2 H3 H4|n x H1| | |v].
+    - apply (arm_line F p s toks Htoks Htr Hw (pcloc (st_toks s)) d li st Hrel (Inv_jump s HI) aft n x j rest'); assumption.
+    - eapply (arm_stmt F p s toks Htoks (pcloc (st_toks s)) d li st aft); [|exact Hsk|intros x0; discriminate].
+      eapply (step_let F p s toks Htoks Htr Hw (pcloc (st_toks s)) (S d) Hd li aft st Hrel v e e' te rest' j); eassumption.
+    - eapply (arm_stmt F p s toks Htoks (pcloc (st_toks s)) d li st aft); [|exact Hsk|intros x0; discriminate].
+      eapply (step_print F p s toks Htoks Htr Hw (pcloc (st_toks s)) (S d) Hd li aft st Hrel items mitems ti rest' j); eassumption.
+    - eapply (arm_stmt F p s toks Htoks (pcloc (st_toks s)) d li st aft); [|exact Hsk|intros x0; discriminate].
+      eapply (step_goto F p s toks Htoks Htr Hw (Inv_jump s HI) (pcloc (st_toks s)) (S d) Hd li aft st Hrel n x rest' j); eassumption.
+    - eapply (arm_stmt F p s toks Htoks (pcloc (st_toks s)) d li st aft); [|exact Hsk|intros x0; discriminate].
+      eapply (step_return F p s toks Htoks Htr Hw (pcloc (st_toks s)) (S d) Hd li aft st Hrel rest' j); [exact Hsk | apply calls_nil; exact Hcr |].
+      intros pc cr E. destruct (calls_cons st s pc cr Hcr E) as (fr & rs & A & B & _). exists fr, rs. split; assumption.
+    - eapply (arm_stmt F p s toks Htoks (pcloc (st_toks s)) d li st aft); [|exact Hsk|intros x0; discriminate].
+      eapply (step_end F p s toks Htoks Htr Hw (pcloc (st_toks s)) (S d) Hd li aft st rest' j); [exact Hsk | apply (i_imm s HI)].
+    - eapply (arm_stmt F p s toks Htoks (pcloc (st_toks s)) d li st aft); [|exact Hsk|intros x0; discriminate].
+      eapply (step_next F p s toks Htoks Htr Hw (pcloc (st_toks s)) (S d) Hd li aft st Hrel v rest' j); [exact Hsk | apply loops_lsame; exact Hlr | exact Hty].
+  Qed.
+
   (* every statement of the fragment steps as its step lemma says *)
   Lemma sren_steps s toks li after st d stmt ts rest i :
     Inv s -> fst (cur_tokens s) = Ok toks -> same_store st s -> calls_rel st s -> loops_rel st s -> typed s ->
     Nat.eqb d max_nesting = false ->
     skipn i toks = ts ++ rest -> (rest = [] \/ exists tr, rest = TColon :: tr) ->
-    SRen F d rest stmt ts -> steps_as F p s toks (pcloc (st_toks s)) d li after st stmt i ts.
+    SRen F d rest stmt ts ->
+    pcloc (st_toks s) after (mkloc (loc_line (loc s)) (i + length ts)) ->
+    steps_as F p s toks (pcloc (st_toks s)) d li after st stmt i ts.
   Proof.
-    intros HI Htoks Hrel Hcr Hlr Hty Hd Hsk Hrest HS.
+    intros HI Htoks Hrel Hcr Hlr Hty Hd Hsk Hrest HS HLa.
     pose proof (i_trace s HI) as Htr. pose proof (i_warn s HI) as Hw.
-    revert i Hd Hsk Hrest.
+    revert i Hd Hsk Hrest HLa.
     induction HS as [d rest v e e' te H1 H2 H3 H4 H5|d rest items mitems ti H1 H2 H3 H4|d rest n x H1|d rest n x H1|d rest|d rest
                     |d rest c c' tc n x H1 H2 H3 H4 H5
                     |d rest v a a' ta b b' tb stp tstep A1 A2 A3 A4 B1 B2 B3 B4 HC|d rest v|d rest b0
-                    |d rest c c' tc stmt tn H1 H2 H3 H4 H5 H6 IH]; intros i Hd Hsk Hrest.
+                    |d rest c c' tc stmt tn H1 H2 H3 H4 H5 H6 IH H7
+                    |d rest c c' tc A ta n x H1 H2 H3 H4 H5 H6 H7|d rest c c' tc A ta B tb H1 H2 H3 H4 H5 H6 H7 IH]; intros i Hd Hsk Hrest HLa.
     - eapply (step_let F p s toks Htoks Htr Hw (pcloc (st_toks s)) d Hd li after st Hrel v e e' te rest i); eassumption.
     - eapply (step_print F p s toks Htoks Htr Hw (pcloc (st_toks s)) d Hd li after st Hrel items mitems ti rest i); eassumption.
     - eapply (step_goto F p s toks Htoks Htr Hw (Inv_jump s HI) (pcloc (st_toks s)) d Hd li after st Hrel n x rest i); eassumption.
     - eapply (step_gosub F p s toks Htoks Htr Hw (Inv_jump s HI) (pcloc (st_toks s)) d Hd li after st Hrel n x rest i);
-        [exact Hsk | exact H1 | apply calls_depth; exact Hcr].
+        [exact Hsk | exact H1 | apply calls_depth; exact Hcr | exact HLa].
     - eapply (step_return F p s toks Htoks Htr Hw (pcloc (st_toks s)) d Hd li after st Hrel rest i); [exact Hsk | apply calls_nil; exact Hcr |].
       intros pc cr E. destruct (calls_cons st s pc cr Hcr E) as (fr & rs & A & B & _). exists fr, rs. split; assumption.
     - eapply (step_end F p s toks Htoks Htr Hw (pcloc (st_toks s)) d Hd li after st rest i); [exact Hsk | apply (i_imm s HI)].
@@ -1598,12 +1856,47 @@ Section Program.
     - eapply (step_rem F p s toks Htoks Htr Hw (pcloc (st_toks s)) d Hd li after st Hrel b0 rest i). exact Hsk.
     - destruct (SRen_head _ _ _ _ _ H6) as (t0 & tn' & Etn & Hnum).
       apply (step_if_stmt F p s toks Htoks Htr Hw (Inv_lines s HI) (calls_land st s Hcr) (loops_land st s Hlr)
-               (pcloc (st_toks s)) d Hd li after st Hrel c c' tc stmt tn t0 tn' rest i Hsk Hrest H1 H2 H3 H4 Etn Hnum (SRen_plain _ _ _ _ _ H6)).
-      apply IH; [exact H5| |exact Hrest].
-      cbn [app] in Hsk. rewrite <- app_assoc in Hsk. cbn [app] in Hsk.
-      destruct (skipn_cons_nth _ _ _ _ Hsk) as [_ Hs1].
+               (pcloc (st_toks s)) d Hd li after st Hrel c c' tc stmt tn t0 tn' rest i Hsk Hrest H1 H2 H3 H4 Etn Hnum H7).
+      apply IH; [exact H5| |exact Hrest|].
+      + cbn [app] in Hsk. rewrite <- app_assoc in Hsk. cbn [app] in Hsk.
+        destruct (skipn_cons_nth _ _ _ _ Hsk) as [_ Hs1].
+        pose proof (skipn_app_len _ _ _ _ Hs1) as Hs2.
+        destruct (skipn_cons_nth _ _ _ _ Hs2) as [_ Hs3]. exact Hs3.
+      + replace (S (S i + length tc) + length tn) with (i + length (TIf :: tc ++ TThen :: tn)); [exact HLa|].
+        cbn [length]. rewrite app_length. cbn [length]. lia.
+    - (* IF c THEN a ELSE <line> *)
+      pose proof Hsk as Hsk0.
+      cbn [app] in Hsk0. rewrite <- !app_assoc in Hsk0. cbn [app] in Hsk0. rewrite <- app_assoc in Hsk0. cbn [app] in Hsk0.
+      destruct (skipn_cons_nth _ _ _ _ Hsk0) as [_ Hs1].
       pose proof (skipn_app_len _ _ _ _ Hs1) as Hs2.
-      destruct (skipn_cons_nth _ _ _ _ Hs2) as [_ Hs3]. exact Hs3.
+      destruct (skipn_cons_nth _ _ _ _ Hs2) as [_ Hs3].
+      pose proof (skipn_app_len _ _ _ _ Hs3) as Hs4.
+      destruct (skipn_cons_nth _ _ _ _ Hs4) as [_ Hs5].
+      apply (step_if_else F p s toks Htoks Htr Hw (Inv_lines s HI) (calls_land st s Hcr) (loops_land st s Hlr)
+               (pcloc (st_toks s)) d Hd li after st Hrel c c' tc A ta (ALine n) [TNumber x] rest i Hsk H1 H2 H3 H4
+               (TRen_plain _ _ _ _ _ H6)).
+      + apply (tren_steps s toks li (S li, 0) st d A ta (TElse :: TNumber x :: rest)); assumption.
+      + apply (arm_line F p s toks Htoks Htr Hw (pcloc (st_toks s)) d li st Hrel (Inv_jump s HI) after n x _ rest); assumption.
+    - (* IF c THEN a ELSE <statement> *)
+      pose proof Hsk as Hsk0.
+      cbn [app] in Hsk0. rewrite <- !app_assoc in Hsk0. cbn [app] in Hsk0. rewrite <- app_assoc in Hsk0. cbn [app] in Hsk0.
+      destruct (skipn_cons_nth _ _ _ _ Hsk0) as [_ Hs1].
+      pose proof (skipn_app_len _ _ _ _ Hs1) as Hs2.
+      destruct (skipn_cons_nth _ _ _ _ Hs2) as [_ Hs3].
+      pose proof (skipn_app_len _ _ _ _ Hs3) as Hs4.
+      destruct (skipn_cons_nth _ _ _ _ Hs4) as [_ Hs5].
+      destruct (SRen_head _ _ _ _ _ H7) as (t0 & tb' & Etb & Hnum).
+      apply (step_if_else F p s toks Htoks Htr Hw (Inv_lines s HI) (calls_land st s Hcr) (loops_land st s Hlr)
+               (pcloc (st_toks s)) d Hd li after st Hrel c c' tc A ta (AStmt B) tb rest i Hsk H1 H2 H3 H4
+               (TRen_plain _ _ _ _ _ H6)).
+      + apply (tren_steps s toks li (S li, 0) st d A ta (TElse :: tb ++ rest)); assumption.
+      + apply (arm_stmt F p s toks Htoks (pcloc (st_toks s)) d li st after B _ tb t0 (tb' ++ rest)).
+        * apply IH; [exact H5 | exact Hs5 | exact Hrest|].
+          replace (S (S (S i + length tc)) + length ta + length tb)
+            with (i + length (TIf :: tc ++ TThen :: ta ++ TElse :: tb)); [exact HLa|].
+          cbn [length]. rewrite app_length. cbn [length]. rewrite app_length. cbn [length]. lia.
+        * rewrite Etb in Hs5. exact Hs5.
+        * exact Hnum.
   Qed.
 
   Definition FailsWith (er : rerr) (line : N) (st' : rstate) (s1 : interp) : Prop :=
@@ -1680,7 +1973,7 @@ Section Program.
       assert (Hafter : pcloc (st_toks s') (li, S si) (mkloc (loc_line (loc s)) (i + length ts))) by (rewrite K1; exact Hafter0).
       assert (Hcr' : calls_rel st' s').
       { destruct Hcr as [A B]. split; [congruence|].
-        destruct CS as [[E1 E2]|[(pc0 & l0 & E1 & E2 & E3)|(fr & rs0 & cr & E1 & E2 & E3 & E4 & _)]].
+        destruct CS as [[E1 E2]|[(pc0 & l0 & E1 & E2 & E3)|(fr & rs0 & cr & E1 & E2 & E3 & E4)]].
         - rewrite E1, E2, K1. exact B.
         - rewrite E1, E2, rev_unit, K1. constructor; [split; [reflexivity | exact E3]|]. exact B.
         - rewrite E4, E2, K1. rewrite E3, E1, rev_unit in B. inversion B; assumption. }
